@@ -66,7 +66,9 @@ public:
         assert (this != chain.load(std::memory_order_relaxed));
         //release memory order because we need to other thread to see change of _next
         //this is last operation of this thread with awaiter
+        COCLS_VERIF_POINT(aw_sub_pre);
         while (!chain.compare_exchange_weak(_next, this, std::memory_order_release));
+        COCLS_VERIF_POINT(aw_sub_post);
 
         assert (_next != this);
     }
@@ -78,6 +80,7 @@ public:
     static suspend_point<void> resume_chain(awaiter_collector &chain) {
         //acquire memory order, we need to see modifications made by other thread during registration
         //this is first operation of the thread of awaiters
+        COCLS_VERIF_POINT(aw_chain_pre);
         return resume_chain_lk(chain.exchange(nullptr, std::memory_order_acquire));
     }
 
@@ -93,15 +96,20 @@ public:
     static suspend_point<void> resume_chain_set_ready(awaiter_collector &chain, awaiter &ready_state) {
         //acquire memory order, we need to see modifications made by other thread during registration
         //this is first operation of the thread of awaiters
+        COCLS_VERIF_POINT(aw_chain_pre);
         return resume_chain_lk(chain.exchange(&ready_state, std::memory_order_acquire));
     }
     static suspend_point<void> resume_chain_lk(awaiter *chain) {
         suspend_point<void> ret;
+        COCLS_VERIF_POINT(aw_chain_post);
         while (chain) {
             auto y = chain;
             chain = chain->_next;
             y->_next = nullptr;
+            COCLS_VERIF_EVENT(ev_chain_node, y, 0);
+            COCLS_VERIF_POINT(aw_chain_node);
             ret << y->resume();
+            COCLS_VERIF_POINT(aw_chain_node_done);
         }
         return ret;
     }
@@ -116,15 +124,21 @@ public:
     bool subscribe_check_ready(awaiter_collector &chain, awaiter &ready_state) {
         assert(this->_next == nullptr);
         //release mode - because _next can change between tries
+        COCLS_VERIF_POINT(aw_subchk_pre);
         while (!chain.compare_exchange_weak(_next, this, std::memory_order_release)) {
             if (_next == &ready_state) {
                 _next = nullptr;
                 //empty load, but enforce memory order acquire because this thread will
                 //access to result
                 std::atomic_thread_fence(std::memory_order_acquire);
+                COCLS_VERIF_FENCE_ACQUIRE(&chain);
+                COCLS_VERIF_EVENT(ev_subchk_ready, this, 0);
                 return false;
             }
+            COCLS_VERIF_POINT(aw_subchk_retry);
         }
+        COCLS_VERIF_EVENT(ev_subchk_pushed, this, 0);
+        COCLS_VERIF_POINT(aw_subchk_post);
         return true;
     }
 
@@ -178,11 +192,13 @@ public:
     ///co_await related function
     bool await_suspend(std::coroutine_handle<> h) {
         set_handle(h);
+        COCLS_VERIF_POINT(coaw_suspend);
         return this->_owner.subscribe(this);
     }
     ///suspend coroutine but register function to be resumed instead of coroutine itself
     bool await_suspend(resume_fn fn, void *user_ctx) {
         set_resume_fn(fn,user_ctx);
+        COCLS_VERIF_POINT(coaw_suspend);
         return this->_owner.subscribe(this);
     }
     ///co_await related function
@@ -268,6 +284,7 @@ public:
 
     void wakeup() {
         flag.store(true);
+        COCLS_VERIF_POINT(sync_wake_mid);
         flag.notify_all();
     }
 
@@ -311,7 +328,9 @@ inline void co_awaiter<promise_type>::sync() noexcept  {
     if (await_ready()) return ;
     assert(!coro_queue::is_active() && "Blocking wait in a coroutine (use force_sync() to override)");
     sync_awaiter awt;
+    COCLS_VERIF_POINT(sync_pre_sub);
     if (subscribe(&awt)) {
+        COCLS_VERIF_POINT(sync_pre_wait);
         awt.flag.wait(false);
     }
 }
@@ -320,7 +339,9 @@ template<typename promise_type>
 inline void co_awaiter<promise_type>::force_sync() noexcept  {
     if (await_ready()) return ;
     sync_awaiter awt;
+    COCLS_VERIF_POINT(sync_pre_sub);
     if (subscribe(&awt)) {
+        COCLS_VERIF_POINT(sync_pre_wait);
         awt.flag.wait(false);
     }
 }
